@@ -331,10 +331,16 @@ impl ZchState {
         }
         let mut is_prioritized_activation = false;
         if !matches!(activation, HasValue(..)) {
+            let is_subset_of_prioritized = matches!(activation, IsSubset);
             activation = self
                 .zch_chords
                 .0
                 .ssm_get_or_is_subset_ksorted(self.zchd.zchd_input_keys.zchik_keys());
+            // A partially pressed followup chord must remain activatable even if its keys are
+            // not part of any top-level chord.
+            if is_subset_of_prioritized && matches!(activation, Neither) {
+                activation = IsSubset;
+            }
         } else {
             is_prioritized_activation = true;
         }
